@@ -521,5 +521,6 @@ pub fn prop() -> Prop {
         ],
         direct: Some(direct),
         selftest: Some(crate::rfc::selftest),
+        fuzz: None,
     }
 }
